@@ -6,8 +6,8 @@ from props import hc_common as H
 from gen_hc import Sim, Net, pick_cfg, random_traffic, pick_len, parse_probe
 
 PROP = "C03"
-LAKE_TARGETS = ["Uflow.Props.C03", "Uflow.Props.C03Rate", "Uflow.Props.C03Recv", "Uflow.Props.C03Hc", "uflow_driver"]
-PROPS_FILES = ["C03", "C03Rate", "C03Recv", "C03Hc"]
+LAKE_TARGETS = ["Uflow.Props.C03", "Uflow.Props.C03Rate", "Uflow.Props.C03Recv", "Uflow.Props.C03Hc", "Uflow.Props.C03Ep", "Uflow.Props.C03EpInst", "uflow_driver"]
+PROPS_FILES = ["C03", "C03Rate", "C03Recv", "C03Hc", "C03Ep", "C03EpInst"]
 TRUSTED_BASE = [
     "Lean 4.33 kernel; axioms per theorem under coverage.axioms",
     "tools/extract_consts.py",
